@@ -11,6 +11,7 @@ Everything else (guard order, integer/time arithmetic, enums, signer state) is m
 Every Go panic site on the path is an explicit `Fail.panic` outcome.
 -/
 import Ssv.Gen.Validation
+import Ssv.Gen.Kernels
 import Ssv.Model.ValidationTime
 
 namespace Ssv.Validation
@@ -68,6 +69,8 @@ inductive Outcome
 deriving DecidableEq, Repr
 
 abbrev Chk := Except Fail Unit
+
+deriving instance DecidableEq for Except
 
 def ok : Chk := .ok ()
 def failT (t : Tag) : Chk := .error (.tag t)
@@ -279,7 +282,10 @@ def roundWindow (c : NetCfg) (m : QMsg) (now : GoTime) : Chk :=
 /-- `int(x)` for a uint64 x -/
 def toInt64 (x : Nat) : Int := wrapI64 x
 
-/-- the index expression of `specqbft.RoundRobinProposer` (Go `int`, truncating `%`); n = len(Committee) ≠ 0 -/
+/-- the index expression of `specqbft.RoundRobinProposer` (Go `int`, truncating `%`); n = len(Committee) ≠ 0.
+    Written with the int64 wrap-around of every intermediate sum (exact for ALL uint64 heights and rounds, which the
+    pre-fix regression cases need); `leaderIndex_eq_kernel` (Proofs) shows it equals the kernel TRANSLATED from the Go
+    source, `Gen.k_RoundRobinProposerIndex`, wherever no intermediate sum overflows. -/
 def leaderIndex (n height round : Nat) : Int :=
   let first := if height != Gen.val_FirstHeight then goMod (toInt64 height) n else 0
   goMod (wrapI64 (wrapI64 (first + toInt64 round) - (Gen.val_FirstRound : Int))) n
@@ -354,10 +360,8 @@ def validateDutyCount (ss : SignerState) (role : Nat) (newDutyInSameEpoch : Bool
 
 /-! ## message counts -/
 
-/-- `maxDecidedCount(committeeSize)`: Go int arithmetic, truncating division -/
-def maxDecidedCount (n : Nat) : Int :=
-  let f := goDiv ((n : Int) - 1) 3
-  (n : Int) * (f + 1)
+/-- `maxDecidedCount(committeeSize)`: the kernel translated from the Go source (Go int arithmetic, truncating division) -/
+def maxDecidedCount (n : Nat) : Int := Gen.k_maxDecidedCount n
 
 def isDecided (m : QMsg) : Bool := m.mtype == Gen.val_CommitMsgType && decide (m.signers.length > 1)
 
